@@ -73,9 +73,16 @@ func UnlinkFileAt(dir *os.File, filename string) error {
 	return unix.Unlinkat(int(dir.Fd()), filename, 0)
 }
 
+// tmpFileSuffix is appended to the name of a file while it is being written by WriteFileAt
+const tmpFileSuffix = ".tmp"
+
 // WriteFileAt writes to a new file in given directory
+//
+// The data is written to a temporary name first and renamed when complete, so that a crash or a failed write never
+// leaves a partial file under the final name (chunk ID matchers must not accept names ending with tmpFileSuffix)
 func WriteFileAt(dir *os.File, filename string, data []byte, perm os.FileMode) error {
-	fd, oerr := unix.Openat(int(dir.Fd()), filename, unix.O_WRONLY|unix.O_CREAT|unix.O_TRUNC, uint32(perm))
+	tmpname := filename + tmpFileSuffix
+	fd, oerr := unix.Openat(int(dir.Fd()), tmpname, unix.O_WRONLY|unix.O_CREAT|unix.O_TRUNC, uint32(perm))
 	if oerr != nil {
 		return oerr
 	}
@@ -89,5 +96,11 @@ func WriteFileAt(dir *os.File, filename string, data []byte, perm os.FileMode) e
 		werr = cerr
 	}
 	verifKillPoint(3, filename)
+	if werr == nil {
+		werr = unix.Renameat(int(dir.Fd()), tmpname, int(dir.Fd()), filename)
+	}
+	if werr != nil {
+		_ = unix.Unlinkat(int(dir.Fd()), tmpname, 0)
+	}
 	return werr
 }
